@@ -41,6 +41,10 @@ pub fn leaves() -> Vec<E> {
     v.push(E::Set(vec![dec("1.0")]));
     v.push(E::Set(vec![dec("1.00"), dec("1.0")]));
     v.push(E::Set(vec![E::str("x"), E::str("y")]));
+    // mixed literal / non-literal elements (the two set representations disagree in shape here)
+    v.push(E::Set(vec![l(1), E::Set(vec![l(1)])]));
+    v.push(E::Set(vec![l(1), l(2), E::Rec(vec![("a".into(), l(1))])]));
+    v.push(E::Set(vec![E::Ent(ua()), dec("1.0")]));
     // records
     v.push(E::Rec(vec![]));
     v.push(E::Rec(vec![("a".into(), l(1))]));
@@ -98,6 +102,7 @@ pub fn kind_reps() -> Vec<E> {
         E::Set(vec![E::Long(1), E::Long(2)]),
         E::Set(vec![E::Ent(gh()), E::Ent(uz())]),
         E::Set(vec![E::Ent(ua()), E::Long(1)]),
+        E::Set(vec![E::Long(1), E::Set(vec![E::Long(1)])]),
         E::Rec(vec![("a".into(), E::Long(1))]),
         E::ext("decimal", vec![E::str("1.5")]),
         E::ext("ip", vec![E::str("10.0.0.1")]),
